@@ -129,7 +129,28 @@ func ruleLockXorDry(c *eng.Ctx) {
 			func(env *eng.PSEnv, _ ssa.Instruction) bool { return env.MayBeNil(rv) })
 		c.Check(ps == nil, rule, "internalOpenWithLocked:unlocked-implies-dry", r.Pos(), "no success return skips both LockRepo and SetDryRun")
 	}
-	c.Floor(rule, 3, 3)
+	// the three open helpers hand their dry-run / no-lock argument on unchanged
+	for _, w := range []string{"openWithReadLock", "openWithAppendLock", "openWithExclusiveLock"} {
+		wf := c.NeedFn(rule, "cmd/restic."+w)
+		if wf == nil {
+			continue
+		}
+		calls := c.P.CallsTo(wf, "cmd/restic.internalOpenWithLocked")
+		if len(calls) != 1 {
+			c.Unk(rule, w+":forwards", wf.Pos(), "expected one call of internalOpenWithLocked, found %d", len(calls))
+			continue
+		}
+		arg := eng.Arg(calls[0], 2)
+		var own *ssa.Parameter
+		for _, p := range wf.Params {
+			if bt, ok := p.Type().Underlying().(*types.Basic); ok && bt.Kind() == types.Bool {
+				own = p
+			}
+		}
+		c.Check(own != nil && eng.Strip(arg) == ssa.Value(own), rule, w+":forwards-dry-run-unchanged", calls[0].Pos(),
+			"%s passes its own boolean parameter (dry-run / no-lock) to internalOpenWithLocked unchanged: what the commands decide (dry-flag-forwarded) is what takes effect", w)
+	}
+	c.Floor(rule, 6, 6)
 }
 
 // ruleDryFlagForwarded (C39): the dry-run flag of each write command reaches the open call.
